@@ -59,11 +59,14 @@ class PacketParser:
     
     def unparse(self, decompressed_fields: List[Tuple[str, Buffer]]) -> List[Tuple[str, Buffer]]:
         unparsed_fields: List[Tuple[str, Buffer]] = []
+        remaining_fields: List[Tuple[str, Buffer]] = list(decompressed_fields)
         for parser in self.parsers:
-            parser_fields = [f for f in decompressed_fields if parser.name in f[0]]
+            # each field goes to the first header parser whose name its id contains, and to that one only
+            parser_fields = [f for f in remaining_fields if parser.name in f[0]]
+            remaining_fields = [f for f in remaining_fields if parser.name not in f[0]]
             unparsed_fields.extend(parser.unparse(parser_fields))
         # fields of no header parser of this stack (the payload, headers reached by prediction) follow unchanged
-        unparsed_fields.extend(f for f in decompressed_fields if not any(parser.name in f[0] for parser in self.parsers))
+        unparsed_fields.extend(remaining_fields)
         return unparsed_fields
 
 
